@@ -39,10 +39,14 @@ func runPrinterNilGuarded(c *Ctx) {
 	}
 	ctors := map[*types.Func]*ctor{}
 	stringOf := map[string]*FuncRef{}
+	equalOf := map[string]*FuncRef{}
 	c.Funcs("parser/ast", func(fr *FuncRef) {
 		if fr.Decl.Recv != nil {
 			if fr.Decl.Name.Name == "String" {
 				stringOf[recvTypeName(fr.Decl)] = fr
+			}
+			if fr.Decl.Name.Name == "Equal" {
+				equalOf[recvTypeName(fr.Decl)] = fr
 			}
 			return
 		}
@@ -126,48 +130,52 @@ func runPrinterNilGuarded(c *Ctx) {
 	}
 	sort.Strings(nodes)
 	for _, node := range nodes {
-		fr := stringOf[node]
-		if fr == nil || len(fr.Decl.Recv.List[0].Names) == 0 {
-			continue
-		}
-		recv := ainfo.Defs[fr.Decl.Recv.List[0].Names[0]]
-		var fields []string
-		for f := range nilable[node] {
-			fields = append(fields, f)
-		}
-		sort.Strings(fields)
-		for _, field := range fields {
-			isField := func(e ast.Expr) bool {
-				sel, ok := ast.Unparen(e).(*ast.SelectorExpr)
-				if !ok || sel.Sel.Name != field {
-					return false
-				}
-				id, ok := ast.Unparen(sel.X).(*ast.Ident)
-				return ok && ainfo.Uses[id] == recv
-			}
-			firstUse, firstCheck := token.NoPos, token.NoPos
-			ast.Inspect(fr.Decl.Body, func(n ast.Node) bool {
-				switch x := n.(type) {
-				case *ast.CallExpr:
-					// n.Field.Method(..)
-					if sel, ok := x.Fun.(*ast.SelectorExpr); ok && isField(sel.X) && firstUse == token.NoPos {
-						firstUse = x.Pos()
-					}
-				case *ast.BinaryExpr:
-					if (x.Op == token.EQL || x.Op == token.NEQ) && isField(x.X) {
-						if tv, ok := ainfo.Types[x.Y]; ok && tv.IsNil() && firstCheck == token.NoPos {
-							firstCheck = x.Pos()
-						}
-					}
-				}
-				return true
-			})
-			if firstUse == token.NoPos {
+		for _, fr := range []*FuncRef{stringOf[node], equalOf[node]} {
+			if fr == nil || len(fr.Decl.Recv.List[0].Names) == 0 {
 				continue
 			}
-			key := node + "." + field
-			ok := firstCheck != token.NoPos && firstCheck < firstUse
-			c.Check(ok, key, firstUse, "%s.String calls a method on the field %s without comparing it with nil first, although the parser builds %s nodes with that field absent (nil passed at %s): printing such a tree is a Go nil dereference", node, field, node, c.Pos(nilable[node][field]))
+			recv := ainfo.Defs[fr.Decl.Recv.List[0].Names[0]]
+			var fields []string
+			for f := range nilable[node] {
+				fields = append(fields, f)
+			}
+			sort.Strings(fields)
+			for _, field := range fields {
+				isField := func(e ast.Expr) bool {
+					sel, ok := ast.Unparen(e).(*ast.SelectorExpr)
+					if !ok || sel.Sel.Name != field {
+						return false
+					}
+					id, ok := ast.Unparen(sel.X).(*ast.Ident)
+					return ok && ainfo.Uses[id] == recv
+				}
+				firstUse, firstCheck := token.NoPos, token.NoPos
+				ast.Inspect(fr.Decl.Body, func(n ast.Node) bool {
+					switch x := n.(type) {
+					case *ast.CallExpr:
+						// n.Field.Method(..)
+						if sel, ok := x.Fun.(*ast.SelectorExpr); ok && isField(sel.X) && firstUse == token.NoPos {
+							firstUse = x.Pos()
+						}
+					case *ast.BinaryExpr:
+						if (x.Op == token.EQL || x.Op == token.NEQ) && isField(x.X) {
+							if tv, ok := ainfo.Types[x.Y]; ok && tv.IsNil() && firstCheck == token.NoPos {
+								firstCheck = x.Pos()
+							}
+						}
+					}
+					return true
+				})
+				if firstUse == token.NoPos {
+					continue
+				}
+				key := node + "." + field
+				if fr.Decl.Name.Name != "String" {
+					key += "/" + fr.Decl.Name.Name
+				}
+				ok := firstCheck != token.NoPos && firstCheck < firstUse
+				c.Check(ok, key, firstUse, "%s.%s calls a method on the field %s without comparing it with nil first, although the parser builds %s nodes with that field absent (nil passed at %s): printing or comparing such a tree is a Go nil dereference", node, fr.Decl.Name.Name, field, node, c.Pos(nilable[node][field]))
+			}
 		}
 	}
 }
